@@ -1,6 +1,7 @@
 import Pm.Dev2
+import Pm.ClientStream
 /-! helper lemmas for C08, part A: what each `_process_*` of `device.c` does, one statement kind at a time -/
-namespace Pm.Dev2
+namespace Pm.Dev2.Interp
 
 /-- payloads of the `Out.sent` records, in order -/
 def sents : List Out → List Bytes
@@ -815,20 +816,5 @@ theorem stmtForeach_done (d : Dev) (a : Action) (o : Oracle) (e : ExecCtx) (body
     (stmtForeach d a o e body isNode).act = setTop a { foreachCtx a e with plugItr := none } := by
   rw [stmtForeach_eq]; unfold stmtForeach'; simp only [h]
 
-#print axioms stmtSend_fresh
-#print axioms stmtSend_finished
-#print axioms stmtExpect_finished_iff
-#print axioms stmtExpect_match
-#print axioms onRun_expect_waits
-#print axioms stmtDelay_finished_iff
-#print axioms stmtIf_pushed_only_if
-#print axioms pickState_first
-#print axioms pickState_pure
-#print axioms setplugstateCore_writes
-#print axioms setplugstateCore_nothing
-#print axioms stmtSetresult_writes
-#print axioms nextPlug_spec
-#print axioms visit_foreachnode
-#print axioms stmtForeach_eq
 
-end Pm.Dev2
+end Pm.Dev2.Interp
